@@ -54,7 +54,7 @@ const (
 // ---------------------------------------------------------------- scenarios / results
 
 type advOp struct {
-	Op  string `json:"op"` // flip dup drop swap splice replaycp flipbyte
+	Op  string `json:"op"` // flip dup drop swap splice replaycp delaycps flipbyte
 	I   int    `json:"i"`
 	J   int    `json:"j"`
 	Fld string `json:"fld"`
@@ -83,6 +83,11 @@ type scenario struct {
 	Seed    int64       `json:"seed"`
 	MaxPay  int         `json:"maxpay"`
 	Pred    *prediction `json:"pred,omitempty"`
+	// Atomic: the schedule was generated for the code as it is since fix d5f2c74 (sequence.Add and the
+	// enqueue are one critical section = one token): the rep.afterSeq gate is not a stop. Schedules of
+	// the as-written control generator (Atomic=false) stop there, which realises the old inversion
+	// again if the critical section is ever removed.
+	Atomic bool `json:"atomic"`
 }
 
 type runInfo struct {
@@ -203,6 +208,7 @@ type producer struct {
 
 type gateCtl struct {
 	active     atomic.Bool
+	skipAfter  atomic.Bool // rep.afterSeq is a pass-through (Atomic schedules)
 	mu         sync.Mutex
 	byGid      map[int64]*producer
 	distParked atomic.Bool
@@ -218,6 +224,9 @@ func gateFn(name string) {
 	if name == "rep.broadcast" {
 		ctl.distParked.Store(true)
 		<-ctl.distRel
+		return
+	}
+	if name == "rep.afterSeq" && ctl.skipAfter.Load() {
 		return
 	}
 	ctl.mu.Lock()
@@ -586,6 +595,7 @@ func (h *harness) runScenario(sc scenario) (err error) {
 		}
 		prods[i] = p
 	}
+	ctl.skipAfter.Store(sc.Atomic)
 	ctl.active.Store(gated)
 	ready := make(chan struct{}, len(prods))
 	for _, p := range prods {
@@ -1151,6 +1161,21 @@ func (h *harness) applyAdv(fr []*frame, op advOp, rng *mrand.Rand, maxSeq uint64
 		c.touched = true
 		c.origIdx = 0
 		return insertAfter(j, c), fmt.Sprintf("%s(frame=%d,after=%d)", op.Op, i+1, j)
+	case "delaycps":
+		// every checkpoint frame is held back until the entry frame that follows it has gone through
+		out := append([]*frame(nil), fr...)
+		moved := 0
+		for k := 0; k+1 < len(out); k++ {
+			if out[k].typ == replication.MsgReplicateCheckpoint && out[k+1].typ == replication.MsgReplicateEntry {
+				out[k], out[k+1] = out[k+1], out[k]
+				moved++
+				k++
+			}
+		}
+		if moved == 0 {
+			return fr, ""
+		}
+		return out, fmt.Sprintf("delaycps(moved=%d)", moved)
 	case "drop":
 		i := clampIdx(op.I, n)
 		if i < 0 {
